@@ -21,6 +21,7 @@ Clauses (names are used in counters and signatures):
   exit-silent           first exception ExitMainLoop => run() returns, loop does not continue
   exc-reraised          first exception other => run() raises that same object, loop does not continue
   exc-once              a following run() does not raise an exception of an earlier run() again
+  watch-remove(-again) / idle-remove(-again)   first removal of a live watch / idle callback => True, further ones => False
   api-call              none of the six API calls raises
   foreign-exception     run() raises nothing but what a callback raised
 
@@ -205,6 +206,27 @@ def check(hist: list[dict], mode: str, eps_due: float, res_order: float, qwait: 
                 ib,
             )
 
+    def judge_remove_results(kind, cid, rec, survives):
+        """EventLoop docstrings: remove_watch_file 'Returns True if the input file exists, False otherwise',
+        remove_enter_idle 'Returns True if the handle was removed': the first removal of a live registration reports
+        True, every further one False.  Judged for removals made in the run() segment of the registration (idle
+        callbacks: also later, where the loop keeps them)."""
+        seen_true = False
+        for i, ret, ctx in rec["removes"]:
+            if seg_of[i] != seg_of[rec["reg"]] and not survives:
+                break
+            if not seen_true:
+                R.evals[f"{kind}-remove"] += 1
+                if ret is True:
+                    seen_true = True
+                else:
+                    R.bad(f"{kind}-remove", f"live-{kind}-removal-returned-{ret}|{_ctxkind(ctx, cid)}", f"first removal of live {kind} {cid} returned {ret!r}", i)
+                    break
+            else:
+                R.evals[f"{kind}-remove-again"] += 1
+                if ret is not False:
+                    R.bad(f"{kind}-remove-again", f"further-removal-returned-{ret}", f"removal of already removed {kind} {cid} returned {ret!r}", i)
+
     # ---------------------------------------------------------------- watches
     for cid, w in watches.items():
         rm, rm_ret = removed_at(w)
@@ -224,6 +246,7 @@ def check(hist: list[dict], mode: str, eps_due: float, res_order: float, qwait: 
                     f"watch {cid} (fd key {w['fd']}) entered after remove_watch_file returned {rm_ret}",
                     i,
                 )
+        judge_remove_results("watch", cid, w, False)
         for i, ret, _ctx in w["removes"]:
             R.obs[f"remove_watch_file-returned-{ret}" + ("-first" if i == w["removes"][0][0] else "-again")] += 1
             if i == w["removes"][0][0] and seg_of[i] == seg_of[w["reg"]]:
@@ -243,6 +266,7 @@ def check(hist: list[dict], mode: str, eps_due: float, res_order: float, qwait: 
                     f"idle {cid} entered after remove_enter_idle returned {rm_ret}",
                     i,
                 )
+        judge_remove_results("idle", cid, d, idles_survive)
         for i, ret, _ctx in d["removes"]:
             R.obs[f"remove_enter_idle-returned-{ret}" + ("-first" if i == d["removes"][0][0] else "-again")] += 1
 
@@ -260,10 +284,15 @@ def check(hist: list[dict], mode: str, eps_due: float, res_order: float, qwait: 
 
     def judge_quiescence(p_exit, q_idx, what):
         """the loop went quiescent somewhere in (p_exit, q_idx); p_exit = exit index of last alarm/watch callback"""
+        carried = seg_of[p_exit] != seg_of[q_idx]
         for cid in idles:
             if not active(idles, cid, p_exit, q_idx):
                 continue
+            if carried and not idles_survive:
+                continue  # the loop dropped its idle callbacks when the previous run() exited
             R.evals["idle-before-quiescent"] += 1
+            if carried:
+                R.evals_later["idle-before-quiescent:owed-from-the-previous-run"] += 1
             if seg_of[q_idx]:
                 R.evals_later["idle-before-quiescent"] += 1
                 if seg_of[idles[cid]["reg"]] != seg_of[q_idx]:
@@ -280,7 +309,7 @@ def check(hist: list[dict], mode: str, eps_due: float, res_order: float, qwait: 
                         break
                 R.bad(
                     "idle-before-quiescent",
-                    f"idle-not-run-before-quiescence{why}",
+                    "idle-not-run-before-quiescence" + ("|owed-since-the-callback-that-ended-the-previous-run" if carried else why),
                     f"idle {cid} not entered between {hist[p_exit]['kind']} callback {hist[p_exit]['id']} (event {p_exit}) and {what} (event {q_idx})",
                     q_idx,
                 )
@@ -292,7 +321,10 @@ def check(hist: list[dict], mode: str, eps_due: float, res_order: float, qwait: 
     for i, ev in enumerate(hist):
         e = ev["e"]
         if e == "run_begin":
-            in_run, seg_raise, last_exit = True, None, None
+            # last_exit is NOT reset: an alarm/watch callback that ran at the end of the previous run() (typically the one
+            # whose exception ended it) is still owed an idle pass "before the loop next goes quiescent", and the next
+            # time the loop goes quiescent is in this run()
+            in_run, seg_raise = True, None
             unserved.clear()
         elif e == "run_end":
             in_run = False
